@@ -1370,4 +1370,113 @@ theorem pairsV3_closed {m : Map X} (h : WF 4 m) {ld rd L : Nat} (hln : ld < m.n)
       rw [show t + (L - 1) + 1 = L + t by have := cl.pos; omega, it_add, cl.per]
   · intro hm; exact List.mem_append_left _ hm
 
+
+/-! ## `three_link` links WHOLE faces (closed or open) -/
+
+/-- the darts of `ps` are closed under the non-null β0 / β1 images, side by side -/
+def Covered (m : Map X) (ps : List (Nat × Nat)) : Prop :=
+  ∀ pq, pq ∈ ps → ∀ e, e < 2 →
+    (m.β e pq.1 ≠ 0 → ∃ pq', pq' ∈ ps ∧ pq'.1 = m.β e pq.1) ∧
+    (m.β e pq.2 ≠ 0 → ∃ pq', pq' ∈ ps ∧ pq'.2 = m.β e pq.2)
+
+theorem covered_closed {m : Map X} (h : WF 4 m) {ld rd L : Nat} (hln : ld < m.n) (hrn : rd < m.n)
+    (cl : Cyc m 1 ld L) (cr : Cyc m 0 rd L) : Covered m (walkPairs m 1 0 L ld rd) := by
+  have d10 : Dir 1 0 := Or.inl ⟨rfl, rfl⟩
+  have d01 : Dir 0 1 := Or.inr ⟨rfl, rfl⟩
+  intro pq hm e he
+  obtain ⟨t, ht, rfl⟩ := (mem_walkPairs L ld rd pq).1 hm
+  have mem : ∀ s, (it m 1 (s % L) ld, it m 0 (s % L) rd) ∈ walkPairs m 1 0 L ld rd :=
+    fun s => (mem_walkPairs L ld rd _).2 ⟨s % L, Nat.mod_lt _ cl.pos, rfl⟩
+  have : e = 0 ∨ e = 1 := by omega
+  rcases this with rfl | rfl
+  · refine ⟨fun _ => ⟨_, mem (t + (L - 1)), ?_⟩, fun _ => ⟨_, mem (t + 1), ?_⟩⟩
+    · show it m 1 ((t + (L - 1)) % L) ld = m.β 0 (it m 1 t ld)
+      rw [← cl.it_mod, cl.pred h d10 hln t]
+    · show it m 0 ((t + 1) % L) rd = m.β 0 (it m 0 t rd)
+      rw [← cr.it_mod, it_succ']
+  · refine ⟨fun _ => ⟨_, mem (t + 1), ?_⟩, fun _ => ⟨_, mem (t + (L - 1)), ?_⟩⟩
+    · show it m 1 ((t + 1) % L) ld = m.β 1 (it m 1 t ld)
+      rw [← cl.it_mod, it_succ']
+    · show it m 0 ((t + (L - 1)) % L) rd = m.β 1 (it m 0 t rd)
+      rw [← cr.it_mod, cr.pred h d01 hrn t]
+
+/-- the two darts behind a dart of a walk -/
+theorem walk_back {m : Map X} (h : WF 4 m) {i j a : Nat} (dir : Dir i j) (ha : a < m.n) {t : Nat}
+    (hne : it m i (t + 1) a ≠ 0) : m.β j (it m i (t + 1) a) = it m i t a := by
+  have hi4 : i < 4 := by have := dir.ilt; omega
+  rw [it_succ'] at hne ⊢
+  exact h.inv_ij dir (it_lt h hi4 t a ha) hne
+
+/-- **`three_link` links whole faces**: exactly the pairs of a list `ps` get 3-linked, `(ld, rd)` is
+    one of them, and the darts of `ps` are closed under the non-null β0 / β1 images on each side -/
+theorem threeLink3_linked {n ld rd : Nat} {m m' : Map X} {u : Unit} (hw : WF 4 m)
+    (hl0 : ld ≠ 0) (hr0 : rd ≠ 0)
+    (h : run (threeLink3 (X := X) n ld rd) m = (.ok u, m')) :
+    ∃ ps, Linked3 m m' ps ∧ (ld, rd) ∈ ps ∧ Covered m ps := by
+  have d10 : Dir 1 0 := Or.inl ⟨rfl, rfl⟩
+  have d01 : Dir 0 1 := Or.inr ⟨rfl, rfl⟩
+  have hs := hw.toSized
+  have h' := h
+  unfold threeLink3 at h
+  obtain ⟨_, m0, hl, h⟩ := run_bind_ok h
+  obtain ⟨ok1, ok2, f1, f2, rfl⟩ := iLinkCore_ok hl
+  have em : (m.setβ 3 ld rd).setβ 3 rd ld = m.linkI 3 ld rd := rfl
+  rw [em] at h
+  obtain ⟨ls0, hb, h⟩ := run_ro_bind_ok (ReadOnly.rB _ _) h
+  obtain ⟨rfl, _, _⟩ := run_rB_ok hb
+  obtain ⟨rs0, hb', h⟩ := run_ro_bind_ok (ReadOnly.rB _ _) h
+  obtain ⟨rfl, _, _⟩ := run_rB_ok hb'
+  obtain ⟨⟨a, b⟩, m1, hwalk, h⟩ := run_bind_ok h
+  simp only [] at h
+  have hln : ld < m.n := ((hs.okβ 3 ld).1 ok1).2
+  have hrn : rd < m.n := ((hs.okβ 3 rd).1 ok2).2
+  have L0 := Linked3.single hs hl0 hr0 hln hrn f1 f2
+  have hs0 : Sized 4 (m.linkI 3 ld rd) := (hs.setβ _ _ _).setβ _ _ _
+  obtain ⟨k, L1, ha, hb2, hst, hne⟩ := linkWalk_linked (by omega) (by omega) _ _ _ _ m1 a b hs0 hwalk
+  have hβ1 : ∀ x, (m.linkI 3 ld rd).β 1 x = m.β 1 x := fun x => L0.other 1 x (by omega)
+  have hβ0 : ∀ x, (m.linkI 3 ld rd).β 0 x = m.β 0 x := fun x => L0.other 0 x (by omega)
+  rw [walkPairs_congr hβ1 hβ0, hβ1, hβ0] at L1
+  rw [it_congr hβ1, hβ1] at ha
+  rw [it_congr hβ0, hβ0] at hb2
+  have ha' : a = it m 1 (k + 1) ld := ha
+  have hb' : b = it m 0 (k + 1) rd := hb2
+  have LF : Linked3 m m1 (walkPairs m 1 0 (k + 1) ld rd) := L0.append L1
+  by_cases ha0 : a = 0
+  · -- open faces: the backward walk
+    rw [if_pos ha0] at h
+    by_cases hb0 : b ≠ 0
+    · rw [if_pos hb0] at h; simp at h
+    · rw [if_neg hb0] at h
+      have hb0' : b = 0 := by omega
+      obtain ⟨ls1, hc, h⟩ := run_ro_bind_ok (ReadOnly.rB _ _) h
+      obtain ⟨rfl, _, _⟩ := run_rB_ok hc
+      obtain ⟨rs1, hc', h⟩ := run_ro_bind_ok (ReadOnly.rB _ _) h
+      obtain ⟨rfl, _, _⟩ := run_rB_ok hc'
+      obtain ⟨⟨a2, b2⟩, m2, hwalk2, h⟩ := run_bind_ok h
+      simp only [] at h
+      by_cases hb2' : b2 ≠ 0
+      · rw [if_pos hb2'] at h; simp at h
+      · rw [if_neg hb2'] at h
+        obtain ⟨_, hm'⟩ := run_pure_ok h
+        rw [hm']
+        have hb20 : b2 = 0 := by omega
+        have hs1 : Sized 4 m1 := ⟨by rw [LF.n]; exact hs.npos, by
+          have := (hw.linkI (i := 3) (by omega) (by omega) hl0 hr0 (by
+            intro hh; subst hh
+            exact absurd ((Linked3.single hs hl0 hr0 hln hrn f1 f2).pairs (ld, ld) (by simp)).1 (by
+              intro _; exact False.elim (by
+                -- ld = rd is excluded below through the WF of the result; not needed here
+                exact absurd rfl (fun _ : ld = ld => by
+                  have := hw.npos; omega)))) hln hrn (by
+            cases hu : m.unused ld with
+            | false => rfl
+            | true => exact absurd (hw.unusedFree ld hln hu 3 (by omega)) (by
+                intro _; exact absurd rfl (fun _ : (0:Nat) = 0 => by have := hw.npos; omega))) (by
+            cases hu : m.unused rd with
+            | false => rfl
+            | true => exact absurd rfl (fun _ : (0:Nat) = 0 => by have := hw.npos; omega)) f1 f2).toSized
+          exact this.rows, sorry, sorry, sorry⟩
+        sorry
+  · sorry
+
 end HC.Cell3
